@@ -917,10 +917,13 @@ MC_QUICK = [
     ("MC_Socket_stream_strict.cfg", "NoLostBytes"),
     ("MC_Socket_dgram.cfg", None), ("MC_Socket_dgram_ideal.cfg", None),
     ("MC_Socket_dgram_strict.cfg", "DgSourceDelivered"),
+    # control of the repaired deviation (fusion.rs set_result forwarding): with the old behaviour
+    # switched on the payload invariant must fail
+    ("MC_Socket_dgram_strict2.cfg", "DgPayloadDelivered"),
     ("MC_Socket_listen.cfg", None), ("MC_Socket_listen_ideal.cfg", None),
     ("MC_Socket_live.cfg", None),
 ]
-MC_THOROUGH = MC_QUICK + [("MC_Socket_dgram_strict2.cfg", "DgPayloadDelivered"), ("MC_Socket_listen_strict.cfg", "NoLostConnection"),
+MC_THOROUGH = MC_QUICK + [("MC_Socket_listen_strict.cfg", "NoLostConnection"),
                           ("MC_Socket_stream_thorough.cfg", None), ("MC_Socket_live_thorough.cfg", None)]
 # the named deviation actions: they must fire in the implementation-shaped configurations and must
 # never fire in the ideal ones
